@@ -25,6 +25,7 @@ type bfsSpec struct {
 	Alphabet []string
 	Depth    int // quick depth
 	DepthT   int // thorough depth
+	Live     func(w *World) // optional bounded-liveness oracle (consumes the world)
 }
 
 type worldReplay struct {
@@ -89,6 +90,8 @@ func (w *World) can(tr string) bool {
 			return false
 		}
 		return true
+	case "manswer", "mreject":
+		return len(r.metaReqs) > 0
 	case "cmd":
 		c := uint32(ai(2))
 		return !r.exited() && int(c) < w.g.nchunks() && r.adv[c/w.g.cpp()] && !w.t.Pieces.Complete(c/w.g.cpp())
@@ -136,6 +139,21 @@ func runWorld(t *testing.T, spec *bfsSpec, hist []string, verbose bool) (out run
 			if verbose {
 				fmt.Printf("  %-22s -> %s\n", tr, w.canon())
 			}
+		}
+		if out.valid && spec.Live != nil && len(w.prob) == 0 {
+			// bounded liveness is judged on a copy of the future: it consumes
+			// the world, so the canonical key is taken first
+			out.canon = w.canon()
+			for _, tr := range spec.Alphabet {
+				if !w.loopDead && w.can(tr) {
+					out.enabled = append(out.enabled, tr)
+				}
+			}
+			spec.Live(w)
+			out.steps = w.transitions
+			w.dispose()
+			out.probs = w.prob
+			return
 		}
 		if out.valid {
 			out.canon = w.canon()
